@@ -124,7 +124,8 @@ theorem verifyIdentity_ok {s s' : State} {a : Nat} (h : verifyIdentity s a = .ok
 
 theorem queryCanTransfer_ok {s s' : State} {f t : Nat} {amt : Int}
     (h : queryCanTransfer s f t amt = .ok s') :
-    s.canTransfer f t amt = true ∧ s' = logQuery s (.canTransfer f t amt) := by
+    (compCanTransfer s f t amt).2 = true ∧
+    s' = logMods (logQuery s (.canTransfer f t amt)) (compCanTransfer s f t amt).1 (.canTransfer f t amt) := by
   unfold queryCanTransfer at h
   split at h
   · injection h with h; exact ⟨by assumption, h.symm⟩
@@ -132,11 +133,19 @@ theorem queryCanTransfer_ok {s s' : State} {f t : Nat} {amt : Int}
 
 theorem queryCanCreate_ok {s s' : State} {t : Nat} {amt : Int}
     (h : queryCanCreate s t amt = .ok s') :
-    s.canCreate t amt = true ∧ s' = logQuery s (.canCreate t amt) := by
+    (compCanCreate s t amt).2 = true ∧
+    s' = logMods (logQuery s (.canCreate t amt)) (compCanCreate s t amt).1 (.canCreate t amt) := by
   unfold queryCanCreate at h
   split at h
   · injection h with h; exact ⟨by assumption, h.symm⟩
   · cases h
+
+theorem hook_ok {s s' : State} {h : Hook} {c : ModCall} (hh : hook s h c = .ok s') :
+    s.bound = true ∧ s' = logMods s (s.mods h) c := by
+  unfold hook at hh
+  split at hh
+  · injection hh with hh; exact ⟨by assumption, hh.symm⟩
+  · cases hh
 
 theorem checkTarget_ok {s s' : State} {old new : Nat} (h : checkTarget s old new = .ok s') :
     s.recTarget old = some new ∧ s' = logId s (.target old) := by
@@ -159,12 +168,13 @@ structure Gates (s : State) (f t : Nat) (amt : Int) : Prop where
   free : amt ≤ s.base.bal f - s.frozen f
   fromVerified : s.idOk f = true
   toVerified : s.idOk t = true
-  compliant : s.canTransfer f t amt = true
+  compliant : (compCanTransfer s f t amt).2 = true
 
 theorem validateTransfer_ok {s s' : State} {f t : Nat} {amt : Int}
     (h : validateTransfer s f t amt = .ok s') :
     Gates s f t amt ∧
-    s' = logQuery (logId (logId s (.verify f)) (.verify t)) (.canTransfer f t amt) := by
+    s' = logMods (logQuery (logId (logId s (.verify f)) (.verify t)) (.canTransfer f t amt))
+      (compCanTransfer s f t amt).1 (.canTransfer f t amt) := by
   unfold validateTransfer at h
   obtain ⟨_, h1, h⟩ := bind_eq_ok h
   obtain ⟨_, h2, h⟩ := bind_eq_ok h
@@ -192,13 +202,16 @@ structure SameEnv (s s' : State) : Prop where
   admin : s'.admin = s.admin
   idOk : s'.idOk = s.idOk
   recTarget : s'.recTarget = s.recTarget
-  canTransfer : s'.canTransfer = s.canTransfer
-  canCreate : s'.canCreate = s.canCreate
+  bound : s'.bound = s.bound
+  mods : s'.mods = s.mods
+  modCanTransfer : s'.modCanTransfer = s.modCanTransfer
+  modCanCreate : s'.modCanCreate = s.modCanCreate
 
-theorem SameEnv.refl (s : State) : SameEnv s s := ⟨rfl, rfl, rfl, rfl, rfl⟩
+theorem SameEnv.refl (s : State) : SameEnv s s := ⟨rfl, rfl, rfl, rfl, rfl, rfl, rfl⟩
 theorem SameEnv.trans {a b c : State} (h1 : SameEnv a b) (h2 : SameEnv b c) : SameEnv a c :=
   ⟨h2.admin.trans h1.admin, h2.idOk.trans h1.idOk, h2.recTarget.trans h1.recTarget,
-   h2.canTransfer.trans h1.canTransfer, h2.canCreate.trans h1.canCreate⟩
+   h2.bound.trans h1.bound, h2.mods.trans h1.mods,
+   h2.modCanTransfer.trans h1.modCanTransfer, h2.modCanCreate.trans h1.modCanCreate⟩
 
 /-- the frozen amount `unfreezeFor` / `forced_transfer` / `burn` leave on the account -/
 def frozenAfter (s : State) (a : Nat) (amt : Int) : Int :=
@@ -207,7 +220,7 @@ def frozenAfter (s : State) (a : Nat) (amt : Int) : Int :=
 theorem unfreezeFor_ok {s s' : State} {a : Nat} {amt : Int} (h : unfreezeFor s a amt = .ok s') :
     s'.base = s.base ∧ s'.addrFrozen = s.addrFrozen ∧ s'.paused = s.paused ∧ s'.notes = s.notes ∧
     SameEnv s s' ∧ (∀ x, s'.frozen x = if x = a then frozenAfter s a amt else s.frozen x) ∧
-    replay s'.events = replay s.events := by
+    replay s'.events = replay s.events ∧ s'.modCalls = s.modCalls := by
   unfold unfreezeFor at h
   obtain ⟨free, h1, h⟩ := bind_eq_ok h
   obtain ⟨e1, -⟩ := chk_ok h1
@@ -219,7 +232,7 @@ theorem unfreezeFor_ok {s s' : State} {a : Nat} {amt : Int} (h : unfreezeFor s a
     obtain ⟨e2, -⟩ := chk_ok h2
     obtain ⟨e3, -⟩ := chk_ok h3
     injection h with h; subst h
-    refine ⟨rfl, rfl, rfl, rfl, ⟨rfl, rfl, rfl, rfl, rfl⟩, ?_, ?_⟩
+    refine ⟨rfl, rfl, rfl, rfl, ⟨rfl, rfl, rfl, rfl, rfl, rfl, rfl⟩, ?_, ?_, rfl⟩
     · intro x
       simp only [emit, upd_apply, frozenAfter]
       rw [if_pos hlt]
@@ -229,7 +242,7 @@ theorem unfreezeFor_ok {s s' : State} {a : Nat} {amt : Int} (h : unfreezeFor s a
     · simp only [emit]; rw [replay_snoc]; rfl
   · rename_i hge
     injection h with h; subst h
-    refine ⟨rfl, rfl, rfl, rfl, ⟨rfl, rfl, rfl, rfl, rfl⟩, ?_, rfl⟩
+    refine ⟨rfl, rfl, rfl, rfl, ⟨rfl, rfl, rfl, rfl, rfl, rfl, rfl⟩, ?_, rfl, rfl⟩
     intro x
     simp only [frozenAfter]
     rw [if_neg hge]
@@ -248,6 +261,8 @@ structure ForcedPost (s s' : State) (f t : Nat) (amt : Int) : Prop where
   notes : s'.notes = s.notes ++ [.transferred f t amt]
   env : SameEnv s s'
   replay : replay s'.events = Fungible.replayEvent (replay s.events) (.transfer f t amt)
+  bound : s.bound = true
+  modCalls : s'.modCalls = s.modCalls ++ callsTo (s.mods .transferred) (.onTransfer f t amt)
 
 theorem forcedTransfer_ok {s s' : State} {f t : Nat} {amt : Int}
     (h : forcedTransfer s f t amt = .ok s') : ForcedPost s s' f t amt := by
@@ -255,15 +270,20 @@ theorem forcedTransfer_ok {s s' : State} {f t : Nat} {amt : Int}
   obtain ⟨_, h1, h⟩ := bind_eq_ok h
   obtain ⟨s1, h2, h⟩ := bind_eq_ok h
   obtain ⟨s2, h3, h⟩ := bind_eq_ok h
+  obtain ⟨s3, h4, h⟩ := bind_eq_ok h
   have g1 := check_ok h1
-  obtain ⟨eb, ea, ep, en, ee, ef, er⟩ := unfreezeFor_ok h2
+  obtain ⟨eb, ea, ep, en, ee, ef, er, em⟩ := unfreezeFor_ok h2
   obtain ⟨b, hb, e3⟩ := baseUpdate_ok h3
   subst e3
+  obtain ⟨g4, e4⟩ := hook_ok h4
+  subst e4
   injection h with h; subst h
   rw [eb] at hb
-  exact ⟨by omega, (update_move hb).1, hb, ef, ea, ep, by simp [emit, notify, en],
-    ⟨ee.admin, ee.idOk, ee.recTarget, ee.canTransfer, ee.canCreate⟩,
-    by simp only [emit, notify]; rw [replay_snoc, er]; rfl⟩
+  exact ⟨by omega, (update_move hb).1, hb, ef, ea, ep, by simp [emit, notify, logMods, en],
+    ⟨ee.admin, ee.idOk, ee.recTarget, ee.bound, ee.mods, ee.modCanTransfer, ee.modCanCreate⟩,
+    by simp only [emit, notify, logMods]; rw [replay_snoc, er]; rfl,
+    by rw [← ee.bound]; exact g4,
+    by simp only [emit, notify, logMods]; rw [em, ← ee.mods]⟩
 
 structure BurnPost (s s' : State) (a : Nat) (amt : Int) : Prop where
   enough : amt ≤ s.base.bal a
@@ -275,6 +295,8 @@ structure BurnPost (s s' : State) (a : Nat) (amt : Int) : Prop where
   notes : s'.notes = s.notes ++ [.destroyed a amt]
   env : SameEnv s s'
   replay : replay s'.events = Fungible.replayEvent (replay s.events) (.burn a amt)
+  bound : s.bound = true
+  modCalls : s'.modCalls = s.modCalls ++ callsTo (s.mods .destroyed) (.onDestroyed a amt)
 
 theorem burn_ok {s s' : State} {a : Nat} {amt : Int} (h : burn s a amt = .ok s') :
     BurnPost s s' a amt := by
@@ -282,19 +304,24 @@ theorem burn_ok {s s' : State} {a : Nat} {amt : Int} (h : burn s a amt = .ok s')
   obtain ⟨_, h1, h⟩ := bind_eq_ok h
   obtain ⟨s1, h2, h⟩ := bind_eq_ok h
   obtain ⟨s2, h3, h⟩ := bind_eq_ok h
+  obtain ⟨s3, h4, h⟩ := bind_eq_ok h
   have g1 := check_ok h1
-  obtain ⟨eb, ea, ep, en, ee, ef, er⟩ := unfreezeFor_ok h2
+  obtain ⟨eb, ea, ep, en, ee, ef, er, em⟩ := unfreezeFor_ok h2
   obtain ⟨b, hb, e3⟩ := baseUpdate_ok h3
   subst e3
+  obtain ⟨g4, e4⟩ := hook_ok h4
+  subst e4
   injection h with h; subst h
   rw [eb] at hb
-  exact ⟨by omega, (update_burn hb).1, hb, ef, ea, ep, by simp [emit, notify, en],
-    ⟨ee.admin, ee.idOk, ee.recTarget, ee.canTransfer, ee.canCreate⟩,
-    by simp only [emit, notify]; rw [replay_snoc, er]; rfl⟩
+  exact ⟨by omega, (update_burn hb).1, hb, ef, ea, ep, by simp [emit, notify, logMods, en],
+    ⟨ee.admin, ee.idOk, ee.recTarget, ee.bound, ee.mods, ee.modCanTransfer, ee.modCanCreate⟩,
+    by simp only [emit, notify, logMods]; rw [replay_snoc, er]; rfl,
+    by rw [← ee.bound]; exact g4,
+    by simp only [emit, notify, logMods]; rw [em, ← ee.mods]⟩
 
 structure MintPost (s s' : State) (t : Nat) (amt : Int) : Prop where
   verified : s.idOk t = true
-  compliant : s.canCreate t amt = true
+  compliant : (compCanCreate s t amt).2 = true
   update : Fungible.update s.base none (some t) amt = .ok s'.base
   frozen : s'.frozen = s.frozen
   addrFrozen : s'.addrFrozen = s.addrFrozen
@@ -302,6 +329,9 @@ structure MintPost (s s' : State) (t : Nat) (amt : Int) : Prop where
   notes : s'.notes = s.notes ++ [.created t amt]
   env : SameEnv s s'
   replay : replay s'.events = Fungible.replayEvent (replay s.events) (.mint t amt)
+  bound : s.bound = true
+  modCalls : s'.modCalls = s.modCalls ++ (callsTo (compCanCreate s t amt).1 (.canCreate t amt) ++
+    callsTo (s.mods .created) (.onCreated t amt))
 
 theorem mint_ok {s s' : State} {t : Nat} {amt : Int} (h : mint s t amt = .ok s') :
     MintPost s s' t amt := by
@@ -315,9 +345,13 @@ theorem mint_ok {s s' : State} {t : Nat} {amt : Int} (h : mint s t amt = .ok s')
   subst e2
   obtain ⟨b, hb, e3⟩ := baseUpdate_ok h3
   subst e3
+  obtain ⟨s4, h4, h⟩ := bind_eq_ok h
+  obtain ⟨g4, e4⟩ := hook_ok h4
+  subst e4
   injection h with h; subst h
-  exact ⟨g1, g2, hb, rfl, rfl, rfl, by simp [emit, notify, logQuery, logId], ⟨rfl, rfl, rfl, rfl, rfl⟩,
-    by simp only [emit, notify]; rw [replay_snoc]; rfl⟩
+  exact ⟨g1, g2, hb, rfl, rfl, rfl, by simp [emit, notify, logQuery, logId, logMods], ⟨rfl, rfl, rfl, rfl, rfl, rfl, rfl⟩,
+    by simp only [emit, notify, logMods]; rw [replay_snoc]; rfl, g4,
+    by simp only [emit, notify, logMods, logQuery, logId, List.append_assoc, compCanCreate]⟩
 
 /-- field-by-field description of a successful holder move (`transfer`, `transfer_from`) -/
 structure MovePost (s s' : State) (f t : Nat) (amt : Int) : Prop where
@@ -335,6 +369,9 @@ structure MovePost (s s' : State) (f t : Nat) (amt : Int) : Prop where
   notes : s'.notes = s.notes ++ [.transferred f t amt]
   env : SameEnv s s'
   replay : replay s'.events = Fungible.replayEvent (replay s.events) (.transfer f t amt)
+  bound : s.bound = true
+  modCalls : s'.modCalls = s.modCalls ++ (callsTo (compCanTransfer s f t amt).1 (.canTransfer f t amt) ++
+    callsTo (s.mods .transferred) (.onTransfer f t amt))
 
 theorem transfer_ok {s s' : State} {auth : List Nat} {f t : Nat} {amt : Int}
     (h : transfer s auth f t amt = .ok s') : f ∈ auth ∧ MovePost s s' f t amt := by
@@ -346,11 +383,15 @@ theorem transfer_ok {s s' : State} {auth : List Nat} {f t : Nat} {amt : Int}
   subst e1
   obtain ⟨b, hb, e2⟩ := baseUpdate_ok h2
   subst e2
+  obtain ⟨s3, h3, h⟩ := bind_eq_ok h
+  obtain ⟨g3, e3⟩ := hook_ok h3
+  subst e3
   injection h with h; subst h
   obtain ⟨u0, -, u2, -, u4, u5⟩ := update_move hb
   exact ⟨requireAuth_ok h0, g, ⟨_, rfl, rfl, hb⟩, u5, u0, u2, u4, rfl, rfl, rfl,
-    by simp [emit, notify, logQuery, logId], ⟨rfl, rfl, rfl, rfl, rfl⟩,
-    by simp only [emit, notify]; rw [replay_snoc]; rfl⟩
+    by simp [emit, notify, logQuery, logId, logMods], ⟨rfl, rfl, rfl, rfl, rfl, rfl, rfl⟩,
+    by simp only [emit, notify, logMods]; rw [replay_snoc]; rfl, g3,
+    by simp only [emit, notify, logMods, logQuery, logId, List.append_assoc]⟩
 
 theorem transferFrom_ok {c : Cfg} {s s' : State} {auth : List Nat} {sp f t : Nat} {amt : Int}
     (h : transferFrom c s auth sp f t amt = .ok s') :
@@ -366,6 +407,9 @@ theorem transferFrom_ok {c : Cfg} {s s' : State} {auth : List Nat} {sp f t : Nat
   subst e2
   obtain ⟨b2, hb2, e3⟩ := baseUpdate_ok h3
   subst e3
+  obtain ⟨s4, h4, h⟩ := bind_eq_ok h
+  obtain ⟨g4, e4⟩ := hook_ok h4
+  subst e4
   injection h with h; subst h
   obtain ⟨a1, a2, a3, -, -⟩ := spendAllowance_ok hb1
   obtain ⟨u0, -, u2, -, u4, u5⟩ := update_move hb2
@@ -377,10 +421,11 @@ theorem transferFrom_ok {c : Cfg} {s s' : State} {auth : List Nat} {sp f t : Nat
     · dsimp only at hb
       split at hb
       · cases hb
-      · rename_i hn; unfold Fungible.allowance; simp only [logQuery, logId] at hn; omega
+      · rename_i hn; unfold Fungible.allowance; simp only [logQuery, logId, logMods] at hn; omega
   refine ⟨requireAuth_ok h0, hal, g, ⟨b1, a1, a2, hb2⟩, ?_, u0, ?_, ?_, rfl, rfl, rfl,
-    by simp [emit, notify, logQuery, logId], ⟨rfl, rfl, rfl, rfl, rfl⟩,
-    by simp only [emit, notify]; rw [replay_snoc]; rfl⟩
+    by simp [emit, notify, logQuery, logId, logMods], ⟨rfl, rfl, rfl, rfl, rfl, rfl, rfl⟩,
+    by simp only [emit, notify, logMods]; rw [replay_snoc]; rfl, g4,
+    by simp only [emit, notify, logMods, logQuery, logId, List.append_assoc]⟩
   · intro x; show b2.bal x = _; rw [u5 x, a2]; rfl
   · show b2.supply = _; rw [u2, a1]; rfl
   · show b2.now = _; rw [u4, a3]; rfl
@@ -389,7 +434,7 @@ theorem freezePartial_ok {s s' : State} {a : Nat} {amt : Int} (h : freezePartial
     0 ≤ amt ∧ s.frozen a + amt ≤ s.base.bal a ∧ s'.base = s.base ∧ s'.addrFrozen = s.addrFrozen ∧
     s'.paused = s.paused ∧ s'.notes = s.notes ∧ SameEnv s s' ∧
     (∀ x, s'.frozen x = if x = a then s.frozen a + amt else s.frozen x) ∧
-    replay s'.events = replay s.events := by
+    replay s'.events = replay s.events ∧ s'.modCalls = s.modCalls := by
   unfold freezePartial at h
   obtain ⟨_, h1, h⟩ := bind_eq_ok h
   obtain ⟨nf, h2, h⟩ := bind_eq_ok h
@@ -399,7 +444,7 @@ theorem freezePartial_ok {s s' : State} {a : Nat} {amt : Int} (h : freezePartial
   subst e2
   have g3 := check_ok h3
   injection h with h; subst h
-  refine ⟨by omega, by omega, rfl, rfl, rfl, rfl, ⟨rfl, rfl, rfl, rfl, rfl⟩, ?_, ?_⟩
+  refine ⟨by omega, by omega, rfl, rfl, rfl, rfl, ⟨rfl, rfl, rfl, rfl, rfl, rfl, rfl⟩, ?_, ?_, rfl⟩
   · intro x; simp only [emit, upd_apply]
   · simp only [emit]; rw [replay_snoc]; rfl
 
@@ -407,7 +452,7 @@ theorem unfreezePartial_ok {s s' : State} {a : Nat} {amt : Int} (h : unfreezePar
     0 ≤ amt ∧ amt ≤ s.frozen a ∧ s'.base = s.base ∧ s'.addrFrozen = s.addrFrozen ∧
     s'.paused = s.paused ∧ s'.notes = s.notes ∧ SameEnv s s' ∧
     (∀ x, s'.frozen x = if x = a then s.frozen a - amt else s.frozen x) ∧
-    replay s'.events = replay s.events := by
+    replay s'.events = replay s.events ∧ s'.modCalls = s.modCalls := by
   unfold unfreezePartial at h
   obtain ⟨_, h1, h⟩ := bind_eq_ok h
   obtain ⟨_, h2, h⟩ := bind_eq_ok h
@@ -417,7 +462,7 @@ theorem unfreezePartial_ok {s s' : State} {a : Nat} {amt : Int} (h : unfreezePar
   obtain ⟨e3, -⟩ := chk_ok h3
   subst e3
   injection h with h; subst h
-  refine ⟨by omega, by omega, rfl, rfl, rfl, rfl, ⟨rfl, rfl, rfl, rfl, rfl⟩, ?_, ?_⟩
+  refine ⟨by omega, by omega, rfl, rfl, rfl, rfl, ⟨rfl, rfl, rfl, rfl, rfl, rfl, rfl⟩, ?_, ?_, rfl⟩
   · intro x; simp only [emit, upd_apply]
   · simp only [emit]; rw [replay_snoc]; rfl
 
@@ -425,7 +470,7 @@ theorem approve_ok {c : Cfg} {s s' : State} {auth : List Nat} {o sp : Nat} {amt 
     (h : approve c s auth o sp amt lu = .ok s') :
     o ∈ auth ∧ s'.base.bal = s.base.bal ∧ s'.base.supply = s.base.supply ∧ s'.frozen = s.frozen ∧
     s'.addrFrozen = s.addrFrozen ∧ s'.paused = s.paused ∧ s'.notes = s.notes ∧ SameEnv s s' ∧
-    replay s'.events = replay s.events := by
+    replay s'.events = replay s.events ∧ s'.modCalls = s.modCalls := by
   unfold approve at h
   obtain ⟨_, h0, h⟩ := bind_eq_ok h
   obtain ⟨s1, h1, h⟩ := bind_eq_ok h
@@ -433,8 +478,8 @@ theorem approve_ok {c : Cfg} {s s' : State} {auth : List Nat} {o sp : Nat} {amt 
   subst e1
   injection h with h; subst h
   obtain ⟨a1, a2, -, -, -⟩ := setAllowance_ok hb
-  exact ⟨requireAuth_ok h0, a2, a1, rfl, rfl, rfl, rfl, ⟨rfl, rfl, rfl, rfl, rfl⟩,
-    by simp only [emit]; rw [replay_snoc]; rfl⟩
+  exact ⟨requireAuth_ok h0, a2, a1, rfl, rfl, rfl, rfl, ⟨rfl, rfl, rfl, rfl, rfl, rfl, rfl⟩,
+    by simp only [emit]; rw [replay_snoc]; rfl, rfl⟩
 
 theorem pause_ok {s s' : State} (h : pause s = .ok s') :
     s.paused = false ∧ s' = emit { s with paused := true } .paused := by
@@ -450,22 +495,56 @@ theorem unpause_ok {s s' : State} (h : unpause s = .ok s') :
   injection h with h
   exact ⟨check_ok h1, h.symm⟩
 
+/-! ### administration of the compliance contract -/
+
+theorem addModule_ok {s s' : State} {h : Hook} {m : Nat} (hh : addModule s h m = .ok s') :
+    m ∉ s.mods h ∧ (s.mods h).length < MAX_MODULES ∧
+    s' = emit { s with mods := fun k => if k = h then s.mods h ++ [m] else s.mods k } (.moduleAdded h m) := by
+  unfold addModule at hh
+  obtain ⟨_, h1, hh⟩ := bind_eq_ok hh
+  obtain ⟨_, h2, hh⟩ := bind_eq_ok hh
+  injection hh with hh
+  have g2 := check_ok h2
+  exact ⟨check_ok h1, by omega, hh.symm⟩
+
+theorem removeModule_ok {s s' : State} {h : Hook} {m : Nat} (hh : removeModule s h m = .ok s') :
+    m ∈ s.mods h ∧
+    s' = emit { s with mods := fun k => if k = h then (s.mods h).erase m else s.mods k } (.moduleRemoved h m) := by
+  unfold removeModule at hh
+  obtain ⟨_, h1, hh⟩ := bind_eq_ok hh
+  injection hh with hh
+  exact ⟨check_ok h1, hh.symm⟩
+
+theorem bindToken_ok {s s' : State} (h : bindToken s = .ok s') :
+    s.bound = false ∧ s' = { s with bound := true } := by
+  unfold bindToken at h
+  obtain ⟨_, h1, h⟩ := bind_eq_ok h
+  injection h with h
+  exact ⟨check_ok h1, h.symm⟩
+
+theorem unbindToken_ok {s s' : State} (h : unbindToken s = .ok s') :
+    s.bound = true ∧ s' = { s with bound := false } := by
+  unfold unbindToken at h
+  obtain ⟨_, h1, h⟩ := bind_eq_ok h
+  injection h with h
+  exact ⟨check_ok h1, h.symm⟩
+
 /-! ### recovery -/
 
 theorem refreeze_ok {s s' : State} {new : Nat} {ft : Int} (h : refreeze s new ft = .ok s') :
     s'.base = s.base ∧ s'.addrFrozen = s.addrFrozen ∧ s'.paused = s.paused ∧ s'.notes = s.notes ∧
     SameEnv s s' ∧
     (∀ x, s'.frozen x = if ft > 0 then (if x = new then s.frozen new + ft else s.frozen x) else s.frozen x) ∧
-    replay s'.events = replay s.events := by
+    replay s'.events = replay s.events ∧ s'.modCalls = s.modCalls := by
   unfold refreeze at h
   split at h
   · rename_i hpos
-    obtain ⟨-, -, e1, e2, e3, e4, e5, e6, e7⟩ := freezePartial_ok h
-    refine ⟨e1, e2, e3, e4, e5, ?_, e7⟩
+    obtain ⟨-, -, e1, e2, e3, e4, e5, e6, e7, e8⟩ := freezePartial_ok h
+    refine ⟨e1, e2, e3, e4, e5, ?_, e7, e8⟩
     intro x; rw [if_pos hpos]; exact e6 x
   · rename_i hneg
     injection h with h; subst h
-    refine ⟨rfl, rfl, rfl, rfl, SameEnv.refl _, ?_, rfl⟩
+    refine ⟨rfl, rfl, rfl, rfl, SameEnv.refl _, ?_, rfl, rfl⟩
     intro x; rw [if_neg hneg]
 
 /-- field-by-field description of a successful `recover_balance` that returned `true` -/
@@ -481,6 +560,8 @@ structure RecoverPost (s s' : State) (old new : Nat) : Prop where
   notes : s'.notes = s.notes ++ [.transferred old new (s.base.bal old)]
   env : SameEnv s s'
   replay : replay s'.events = Fungible.replayEvent (replay s.events) (.transfer old new (s.base.bal old))
+  bound : s.bound = true
+  modCalls : s'.modCalls = s.modCalls ++ callsTo (s.mods .transferred) (.onTransfer old new (s.base.bal old))
 
 theorem recoverMove_ok {s s' : State} {old new : Nat} (h : recoverMove s old new = .ok s') :
     RecoverPost s s' old new := by
@@ -489,8 +570,8 @@ theorem recoverMove_ok {s s' : State} {old new : Nat} (h : recoverMove s old new
   obtain ⟨s2, h2, h⟩ := bind_eq_ok h
   injection h with h; subst h
   have fp := forcedTransfer_ok h1
-  obtain ⟨e1, e2, e3, e4, e5, e6, e7⟩ := refreeze_ok h2
-  refine ⟨?_, ?_, ?_, ?_, ?_, ?_, ?_⟩
+  obtain ⟨e1, e2, e3, e4, e5, e6, e7, e8⟩ := refreeze_ok h2
+  refine ⟨?_, ?_, ?_, ?_, ?_, ?_, ?_, fp.bound, ?_⟩
   · show Fungible.update s.base (some old) (some new) (s.base.bal old) = .ok (refreezeAddr s2 new (s.addrFrozen old)).base
     have : (refreezeAddr s2 new (s.addrFrozen old)).base = s1.base := by
       unfold refreezeAddr; split <;> simp [setAddressFrozen, emit, e1]
@@ -525,7 +606,7 @@ theorem recoverMove_ok {s s' : State} {old new : Nat} (h : recoverMove s old new
       unfold refreezeAddr; split <;> simp [setAddressFrozen, emit]
     rw [this, e4, fp.notes]
   · have he : SameEnv s2 (emit (refreezeAddr s2 new (s.addrFrozen old)) (.recoverySuccess old new)) := by
-      unfold refreezeAddr; split <;> exact ⟨rfl, rfl, rfl, rfl, rfl⟩
+      unfold refreezeAddr; split <;> exact ⟨rfl, rfl, rfl, rfl, rfl, rfl, rfl⟩
     exact (fp.env.trans e5).trans he
   · have : replay (emit (refreezeAddr s2 new (s.addrFrozen old)) (.recoverySuccess old new)).events
         = replay s2.events := by
@@ -534,6 +615,10 @@ theorem recoverMove_ok {s s' : State} {old new : Nat} (h : recoverMove s old new
       · simp only [emit, setAddressFrozen]; rw [replay_snoc, replay_snoc]; rfl
       · simp only [emit]; rw [replay_snoc]; rfl
     rw [this, e7, fp.replay]
+  · have : (emit (refreezeAddr s2 new (s.addrFrozen old)) (.recoverySuccess old new)).modCalls
+        = s2.modCalls := by
+      unfold refreezeAddr; split <;> rfl
+    rw [this, e8, fp.modCalls]
 
 /-- a successful `recover_balance`: the new account is verified and is the registered target;
 either nothing to recover (`false`, only the mocks' call logs grow) or everything moved -/
@@ -564,7 +649,8 @@ theorem recoverBalance_ok {s s' : State} {old new : Nat} {r : Bool}
       subst ha
       have p := recoverMove_ok h3
       exact Or.inr ⟨hb.symm, hnz, ⟨p.update, p.frozen, p.addrFrozen, p.paused, p.notes,
-        ⟨p.env.admin, p.env.idOk, p.env.recTarget, p.env.canTransfer, p.env.canCreate⟩, p.replay⟩⟩
+        ⟨p.env.admin, p.env.idOk, p.env.recTarget, p.env.bound, p.env.mods, p.env.modCanTransfer, p.env.modCanCreate⟩, p.replay,
+        p.bound, p.modCalls⟩⟩
     · cases h
 
 /-! ### the state machine, by operation -/
@@ -670,10 +756,29 @@ theorem apply_envRecTarget {c : Cfg} {s s' : State} {auth : List Nat} {a : Nat} 
   obtain ⟨r, h⟩ := apply_eq_ok h
   injection h with h; injection h with ha hb; exact ha.symm
 
-theorem apply_envCompliance {c : Cfg} {s s' : State} {auth : List Nat}
+theorem apply_envModule {c : Cfg} {s s' : State} {auth : List Nat} {m : Nat}
     {ct : Nat → Nat → Int → Bool} {cc : Nat → Int → Bool}
-    (h : apply c s auth (.envCompliance ct cc) = .ok s') : s' = { s with canTransfer := ct, canCreate := cc } := by
+    (h : apply c s auth (.envModule m ct cc) = .ok s') :
+    s' = { s with modCanTransfer := upd s.modCanTransfer m ct, modCanCreate := upd s.modCanCreate m cc } := by
   obtain ⟨r, h⟩ := apply_eq_ok h
   injection h with h; injection h with ha hb; exact ha.symm
+
+theorem apply_addModule {c : Cfg} {s s' : State} {auth : List Nat} {hk : Hook} {m op : Nat}
+    (h : apply c s auth (.addModule hk m op) = .ok s') :
+    (op ∈ auth ∧ op = s.admin) ∧ addModule s hk m = .ok s' := by
+  obtain ⟨r, h⟩ := apply_eq_ok h; exact guarded_ok h
+
+theorem apply_removeModule {c : Cfg} {s s' : State} {auth : List Nat} {hk : Hook} {m op : Nat}
+    (h : apply c s auth (.removeModule hk m op) = .ok s') :
+    (op ∈ auth ∧ op = s.admin) ∧ removeModule s hk m = .ok s' := by
+  obtain ⟨r, h⟩ := apply_eq_ok h; exact guarded_ok h
+
+theorem apply_bindToken {c : Cfg} {s s' : State} {auth : List Nat} {op : Nat}
+    (h : apply c s auth (.bindToken op) = .ok s') : (op ∈ auth ∧ op = s.admin) ∧ bindToken s = .ok s' := by
+  obtain ⟨r, h⟩ := apply_eq_ok h; exact guarded_ok h
+
+theorem apply_unbindToken {c : Cfg} {s s' : State} {auth : List Nat} {op : Nat}
+    (h : apply c s auth (.unbindToken op) = .ok s') : (op ∈ auth ∧ op = s.admin) ∧ unbindToken s = .ok s' := by
+  obtain ⟨r, h⟩ := apply_eq_ok h; exact guarded_ok h
 
 end OZ.Rwa
